@@ -34,7 +34,11 @@ Inductive cst :=
        (whole : N)                    (* FileConstraint{WholeRef}, 0 = unset *)
        (size : option (N * N))        (* BlobSize{min,max} *)
        (refis : N)                    (* BlobRefPrefix that is a complete blobref, 0 = unset *)
-       (prefix : option (list N))     (* BlobRefPrefix that is a proper prefix: given by the refs it matches *)
+       (prefix : option (list N))     (* the struct's further conjuncts that the planner never looks into - a BlobRefPrefix that
+                                         is a proper prefix, the non-wholeRef fields of a FileConstraint, a DirConstraint, the
+                                         fields of a PermanodeConstraint beyond attr/value/valueMatches/relation (numValue,
+                                         valueAll, valueMatchesInt, valueInSet, modTime, time, at, skipHidden) - given together by
+                                         the set of refs satisfying all of them: the theorems hold for every such set *)
        (rel : option (bool * bool * cst)).  (* PermanodeConstraint{Relation}: (parent rather than child?, All rather than Any?, sub) *)
 
 Definition avals (b : blobm) (a : N) : list N :=
